@@ -20,14 +20,18 @@ def vb (T : Types) : Nat := Types.size T + 1
 structure Grow (T T' : Types) : Prop where
   ext : Ext [] [] T T'
   size : Types.size T ≤ Types.size T'
+  /-- declared interfaces and worlds are never modified (their ids included) -/
+  keepI : ∀ (i : Nat) x, T.interfaces[i]? = some x → T'.interfaces[i]? = some x
+  keepW : ∀ (i : Nat) x, T.worlds[i]? = some x → T'.worlds[i]? = some x
 
-theorem Grow.refl (T : Types) : Grow T T := ⟨Ext.refl _ _ _, Nat.le_refl _⟩
+theorem Grow.refl (T : Types) : Grow T T := ⟨Ext.refl _ _ _, Nat.le_refl _, fun _ _ h => h, fun _ _ h => h⟩
 theorem Grow.trans {T T' T'' : Types} (h1 : Grow T T') (h2 : Grow T' T'') : Grow T T'' :=
-  ⟨h1.ext.trans h2.ext, Nat.le_trans h1.size h2.size⟩
+  ⟨h1.ext.trans h2.ext, Nat.le_trans h1.size h2.size, fun i x h => h2.keepI i x (h1.keepI i x h),
+    fun i x h => h2.keepW i x (h1.keepW i x h)⟩
 
 theorem Grow.addDefined (st : St) (d : DefinedType) : Grow st.types (Elab.addDefined st d).1.types := by
   refine ⟨⟨rfl, ?_, fun _ _ h => h, fun _ _ h => h, fun _ x h => ⟨x, h, rfl, rfl⟩,
-    fun _ x _ h => ⟨x, h, rfl⟩, fun _ x _ h => ⟨x, h, rfl, rfl⟩⟩, ?_⟩
+    fun _ x _ h => ⟨x, h, rfl⟩, fun _ x _ h => ⟨x, h, rfl, rfl⟩⟩, ?_, fun _ _ h => h, fun _ _ h => h⟩
   · intro i x h
     exact getElem?_append_lt' _ _ _ _ h
   · simp [Elab.addDefined, Types.size]
@@ -54,7 +58,7 @@ theorem HR.toHL {T : Types} {r : Nat} {l : Res} (h : HR T r l) : HL [] [] T r l 
 
 theorem Grow.addResource (st : St) (x : Resource) : Grow st.types (Elab.addResource st x).1.types := by
   refine ⟨⟨rfl, fun _ _ h => h, fun _ _ h => h, fun _ _ h => h, ?_,
-    fun _ x _ h => ⟨x, h, rfl⟩, fun _ x _ h => ⟨x, h, rfl, rfl⟩⟩, ?_⟩
+    fun _ x _ h => ⟨x, h, rfl⟩, fun _ x _ h => ⟨x, h, rfl, rfl⟩⟩, ?_, fun _ _ h => h, fun _ _ h => h⟩
   · intro i y h
     exact ⟨y, getElem?_append_lt' _ _ _ _ h, rfl, rfl⟩
   · simp [Elab.addResource, Types.size]
